@@ -9,11 +9,19 @@ with (a) the generating data, (b) the model reader `c02.parse` / `c02.readdir` r
 The model side is character level: `c02.render` returns the characters of the whole file (`fileText`), `c02.parse` /
 `c02.readdir` take characters (`readResText` / `lexFile`: lines between newlines, Python-whitespace lexer) - the
 functions of `C02_parse_render_chars`, whose Boolean hypotheses the driver evaluates on every case.
+Directory level (round 5): the files of a directory are those a solver run leaves behind - the result files need not be
+named after the mesh (hecmw_ctrl.dat binds any names), a control file may sit under a third name, logs / restart /
+visualisation files lie next to them; the model selects the result files from the listing (`c02.find` = `findRes`,
+theorems C02_res_glob_any_stem / _listing / C02_res_file_name) and is held to glob and to the files written.
+Variable names are data: any blank-free token that starts with a letter (the solver's shell results NodalSTRESS+ /
+NodalSTRESS- / ElementalSTRAIN+, names with other symbols, numeral-like names), in every position of both lists.
 Oracle: the property on the real API only (value-by-id equality, series = stack of the single-step readings in
 ascending step order, no series = largest step).
 """
 import glob
 import math
+import os
+import re
 import struct
 from pathlib import Path
 
@@ -28,7 +36,8 @@ THEOREMS = ['C02_parse_render', 'C02_split_point', 'C02_split_point_nodal_only',
             'C02_rebinding_ids', 'C02_steps', 'C02_steps_latest', 'C02_step_of_name', 'C02_timeseries_is_stack',
             'C02_stack_spec', 'C02_timeseries_by_id', 'C02_latest_is_single', 'C02_header_constants',
             'C02_singleton_series_counterexample_upstream', 'C02_lex_print_line', 'C02_parse_render_lines',
-            'C02_parse_render_chars', 'C02_single_chars']
+            'C02_parse_render_chars', 'C02_single_chars', 'C02_res_glob_any_stem', 'C02_res_glob_listing',
+            'C02_res_file_name']
 PARTIAL = [
     'C02_parse_render_chars: character level for one result file (printer, newline / whitespace lexer, token classes); '
     'line splitting models StringSeries.read_file as "split at newlines, skip empty lines" (pandas read_csv quoting / '
@@ -38,18 +47,29 @@ PARTIAL = [
     'stacks positionally under the ids of the first step); stated as an explicit hypothesis',
 ]
 RULE = ('random mesh (uniform or 2-3 mixed FrontISTR element types, arbitrary ids, storage order asc/desc/shuffled, every '
-        'node referenced) x 1-5 nodal and 0-4 elemental variables with component counts 1-9 x value table of arbitrary '
+        'node referenced; also tet+tet2 / hex+hex2 / line+line2 in one mesh) x 1-5 nodal and 0-4 elemental variables with '
+        'component counts 1-9 x variable names (identifiers | the solver\'s shell names base+ / base- next to bare bases | '
+        'names with other non-word characters after the first letter | numeral-like names such as E+01 | non-word names '
+        'between two plain ones; first cases of every run force each style) x value table of arbitrary '
         'finite float64 printed with %.16E x header layout old/2.0 x wrap widths of count and value lines 1-10 x row order '
         'of the result file (mesh order / ascending / shuffled) x a set of 1-4 step numbers with 1-7 digits (sets straddling '
         'the digit-count boundaries 9|10 … 99999|100000 in every run) x file stem / directory / rank with and without '
-        'digits; the model renders the text; '
+        'digits x directory layout (result files named after the mesh or differently, control file absent / named after '
+        'the mesh / after the results / own name, other files a solver run leaves behind: logs, restart, visualisation, '
+        'hecmw_ctrl.dat; the model selects the result files from the listing: findRes) x reading with the default stem '
+        '(and, when all files share one stem, also with stem= given); the model renders the text; '
         'a case is non-trivial when the mesh has >= 2 elements and >= 2 variables or wrapped lines; distinct = distinct '
         '(mesh, variables, wraps, layout, steps)')
 ASSUMPTIONS = [
     'the layout of solver-written .res files is a hand specification (renderFile): single-blank separated tokens, '
     'values in E-notation, an id line then the value lines per entity, at least one nodal variable',
-    'variable names are identifiers ([A-Za-z][A-Za-z0-9_]*) that are distinct inside a section, are not pandas NA '
-    'spellings (NA, NULL, NaN, nan, None, null), do not contain TOTALTIME and are not the reserved name NODE',
+    'variable names are blank-free tokens that start with a letter (the reader recognises name lines by their first '
+    'character; any other printable ASCII character except @ and " may follow: NodalSTRESS+, E+01, a.b(c)), are distinct '
+    'inside a section, are not pandas NA spellings (NA, NULL, NaN, nan, None, null, N/A, n/a), do not contain TOTALTIME, '
+    'are not the reserved name NODE and are not alias keys of femio.config.DICT_ALIASES; names with interior blanks '
+    '(never written by the solver) are not generated',
+    'a directory holds one mesh file, at most one control file (a minimal static one) and the result files of ONE '
+    'analysis (one stem, one rank); no other file of the directory matches *.msh, *.cnt or *.res.*',
     'every node of the mesh is referenced by an element (the reader removes unreferenced nodes before it reads the '
     'result; meshes with unreferenced nodes are a separate labelled stream, never reported as violations)',
     'all steps of a series list the same variables and the entities in the same order (as a solver does)',
@@ -59,11 +79,19 @@ TRUSTED = ['C02: the hand-written .msh writer of the harness (checked by compari
            'C02: correct rounding of Python float() / "%.16E" (17 significant digits identify a binary64 value)']
 
 CODE = {'line': 301, 'line2': 302, 'tri': 731, 'quad': 741, 'tet': 341, 'tet2': 342, 'prism': 351, 'hex': 361, 'hex2': 362}
-NA = {'NA', 'NULL', 'NaN', 'nan', 'None', 'null', 'N', 'NODE'}
+NA = {'NA', 'NULL', 'NaN', 'nan', 'None', 'null', 'N', 'NODE', 'N/A', 'n/a'}
 NAMES_N = ['DISPLACEMENT', 'REACTION_FORCE', 'NodalSTRESS', 'NodalSTRAIN', 'NodalMISES', 'TEMPERATURE', 'VELOCITY', 'E12',
            'T2', 'u']
 NAMES_E = ['ElementalSTRESS', 'ElementalSTRAIN', 'ElementalMISES', 'ESTRESS', 'E3', 'GaussSTRESS', 'q']
 ALNUM = 'ABCDEFGHIJKLMNOPQRSTUVWXYZabcdefghijklmnopqrstuvwxyz0123456789_'
+# characters a variable name may contain after its first letter besides [A-Za-z0-9_] (a name is a blank-free token that
+# starts with a letter: `wordOKB` of the model; FrontISTR itself writes NodalSTRESS+ / NodalSTRESS- / ElementalSTRAIN+ …
+# for the two surfaces of shell elements).  '@' (the separator read_file hands to pandas) and '"' (pandas quoting, not
+# modelled: PARTIAL) are left out.
+SYMBOLS = "+-+-.#()/:%&=,;[]<>!?|~^$'`{}*\\"
+# names that look like pieces of numerals / E-notation but start with a letter
+NUMLIKE = ['E+01', 'E-05', 'E+100', 'e-3', 'E1', 'D+00', 'Inf', 'Infinity', 'inf', 'E+', 'E-', 'x1.5E+03', 'E+01E-02']
+NAME_STYLES = ['plain', 'plain', 'plain', 'shell', 'shell', 'symbols', 'mixed', 'mixed', 'sandwich']
 
 
 # ------------------------------------------------------------------ generators
@@ -108,17 +136,62 @@ def is_alias(n):
     return config.DICT_ALIASES.get(n, n) != n
 
 
-def rand_names(rnd, k, pool):
+def name_ok(n, out):
+    return not (n in out or n in NA or 'TOTALTIME' in n or is_alias(n))
+
+
+def rand_word(rnd, symbols):
+    """a letter followed by 0-11 characters: [A-Za-z0-9_] only (identifier) or also SYMBOLS"""
+    tail = ALNUM + SYMBOLS * 2 if symbols else ALNUM
+    return rnd.choice(ALNUM[:52]) + ''.join(rnd.choice(tail) for _ in range(rnd.randint(1 if symbols else 0, 11)))
+
+
+def rand_names(rnd, k, pool, style='plain'):
+    """k distinct variable names.  style: 'plain' identifiers only (pool names / random identifiers); 'shell' the solver's
+    names for shell results: base+ / base- pairs (every name after an optional plain first one ends in a sign, a base may
+    also occur bare: names that are prefixes of each other); 'symbols' every name contains a non-word character;
+    'mixed' each name independently plain / signed / with symbols / numeral-like; 'sandwich' (k >= 3) non-word names
+    between a plain first and a plain last name"""
     out = []
+    if style == 'sandwich':
+        inner = rand_names(rnd, max(k - 2, 0), pool, rnd.choice(['shell', 'symbols']))
+        ends = []
+        while len(ends) < min(k, 2):
+            n = rnd.choice(pool) if rnd.random() < .6 else rand_word(rnd, False)
+            if name_ok(n, ends + inner):
+                ends.append(n)
+        return (ends[:1] + inner + ends[1:])[:k]
+    if style == 'shell':
+        if rnd.random() < .5:
+            out.append(rnd.choice(pool))
+        bases = list(pool)
+        rnd.shuffle(bases)
+        for b in bases:
+            for sgn in rnd.choice(['+-', '+-', '-+', '+', '-']):
+                if len(out) < k and name_ok(b + sgn, out):
+                    out.append(b + sgn)
+        if out and rnd.random() < .3:
+            rnd.shuffle(out)
     while len(out) < k:
-        if rnd.random() < .6:
-            n = rnd.choice(pool)
+        kind = {'plain': 'plain', 'symbols': 'symbols', 'shell': 'signed'}.get(style) or \
+            rnd.choice(['plain', 'signed', 'symbols', 'symbols', 'numlike'])
+        if kind == 'plain':
+            n = rnd.choice(pool) if rnd.random() < .6 else rand_word(rnd, False)
+        elif kind == 'signed':
+            n = (rnd.choice(pool) if rnd.random() < .7 else rand_word(rnd, False)) + rnd.choice('+-')
+        elif kind == 'numlike':
+            n = rnd.choice(NUMLIKE)
         else:
-            n = rnd.choice(ALNUM[:52]) + ''.join(rnd.choice(ALNUM) for _ in range(rnd.randint(0, 11)))
-        if n in out or n in NA or 'TOTALTIME' in n or is_alias(n):
-            continue
-        out.append(n)
-    return out
+            n = rand_word(rnd, True)
+            if re.fullmatch(r'\w+', n):
+                continue
+        if name_ok(n, out):
+            out.append(n)
+    return out[:k]
+
+
+def is_plain(n):
+    return re.fullmatch(r'[A-Za-z]\w*', n) is not None
 
 
 def msh_text(m):
@@ -136,6 +209,9 @@ def msh_text(m):
 def gen_mesh(rnd, keep_unref=False):
     mixed = rnd.random() < .6
     types = rnd.sample(list(CODE), rnd.randint(2, 3)) if mixed else [rnd.choice(list(CODE))]
+    if mixed and rnd.random() < .15:
+        # first- and second-order elements of one shape in ONE mesh (their element ids interleave in the result file)
+        types = list(rnd.choice([('tet', 'tet2'), ('hex', 'hex2'), ('line', 'line2'), ('tet2', 'tet'), ('hex2', 'hex', 'prism')]))
     m = G.gen_combinatorial(rnd, types=types, max_elems=max(len(types), rnd.choice([2, 4, 8, 12])), unref=keep_unref)
     used = {n for b in m['blocks'].values() for _, c in b for n in c}
     if not keep_unref:
@@ -167,6 +243,39 @@ DIRS = ['c02', 'c02', 'res_2024', 'step10', '0009']
 RANKS = [0, 0, 0, 1, 12, 10000]
 
 
+# result files named differently from the mesh (the names are free: hecmw_ctrl.dat binds fstrMSH / fstrCNT / fstrRES to
+# any file names), an optional control file under the mesh's, the result's or a third name, and the other files a solver
+# run leaves in its directory (none of them is a *.msh, *.cnt or *.res.* file)
+RES_STEMS = ['job', 'result', 'out2', 'm_res', 'run.10', 'mesh', 'm', 'model.static', 'a10b9', 'res', '2024']
+CNT_STEMS = ['ctrl', 'analysis', 'job', 'c3']
+CNT_TEXT = '!VERSION\n 3\n!SOLUTION, TYPE=STATIC\n!END\n'
+EXTRA_FILES = ['hecmw_ctrl.dat', 'FSTR.msg', 'FSTR.sta', '0.log', 'FSTR.dbg.0', 'hecmw_vis.ini', '{res}_vis_psf.0001.inp',
+               '{res}.restart.0', 'FSTR.restart_0.res', '{mesh}.msh.bak', '{res}.log', 'readme.txt', '{mesh}_msh.txt',
+               'res.0.1', '{mesh}.res', 'notes.cnt.txt']
+DIR_STYLES = ['same', 'same', 'other', 'other-cnt-mesh', 'other-cnt-res', 'other-cnt-own', 'same-cnt', 'same-cnt-own']
+
+
+def gen_dir(rnd, stem, style=None):
+    """-> (res_stem, cnt file name | None, extra file names)"""
+    style = style or rnd.choice(DIR_STYLES)
+    res_stem = stem
+    if style.startswith('other'):
+        res_stem = rnd.choice([x for x in RES_STEMS if x != stem] + [stem + '_out', stem + '.1', 'x' + stem])
+    cnt = None
+    if 'cnt' in style:
+        cnt = {'mesh': stem, 'res': res_stem}.get(style.rsplit('-', 1)[1]) or rnd.choice([x for x in CNT_STEMS if x != stem])
+        if style == 'same-cnt':
+            cnt = stem
+        cnt += '.cnt'
+    extras = []
+    if rnd.random() < .6:
+        extras = sorted({x.format(res=res_stem, mesh=stem) for x in rnd.sample(EXTRA_FILES, rnd.randint(1, 5))})
+    return style, res_stem, cnt, extras
+
+
+FIRST_DIRS = ['other', 'same', 'other-cnt-mesh', 'same-cnt', 'other-cnt-own', 'other', 'same', 'other-cnt-res', 'same-cnt-own',
+              'other', 'same', 'other']
+FIRST_NAMES = ['plain', 'shell', 'mixed', 'symbols', 'sandwich', 'plain', 'mixed', 'shell', 'symbols', 'sandwich', 'shell', 'plain']
 FIRST_STEPS = [[3], [1, 2], [2, 10], [7], [9, 10, 11], [1], [100, 20, 3], [12], [9000, 9999, 10000, 12000], [999, 1000],
                [99999, 100000], [10000, 2000]]
 
@@ -185,22 +294,29 @@ def rand_steps(rnd):
 
 def res_name(case, s):
     """file name of the result of step s: <stem>.res.<rank>.<step> (older replay files: m.res.0.<step>)"""
-    return f"{case.get('stem', 'm')}.res.{case.get('rank', 0)}.{s}"
+    return f"{case.get('res_stem', case.get('stem', 'm'))}.res.{case.get('rank', 0)}.{s}"
 
 
 def msh_name(case):
     return f"{case.get('stem', 'm')}.msh"
 
 
-def gen_case(rnd, keep_unref=False, steps=None):
+def gen_case(rnd, keep_unref=False, steps=None, name_style=None, dir_style=None):
     m = gen_mesh(rnd, keep_unref)
     nids = [i for i, _ in m['nodes']]
     eids = [e for b in m['blocks'].values() for e, _ in b]
     n_nv = rnd.choice([1, 1, 2, 3, 4, 5])
     n_ev = rnd.choice([0, 0, 1, 2, 3, 4])
     widths = [1, 1, 3, 3, 6, 7, 2, 4, 5, 8, 9]
-    nv = [[n, rnd.choice(widths)] for n in rand_names(rnd, n_nv, NAMES_N)]
-    ev = [[n, rnd.choice(widths)] for n in rand_names(rnd, n_ev, NAMES_E + NAMES_N)]
+    name_style = name_style or rnd.choice(NAME_STYLES)
+    if name_style != 'plain' and (name_style in ('shell', 'sandwich') or rnd.random() < .4):
+        # a file with nodal AND elemental variables, several of each (the solver's shell output has 8 + 6)
+        n_nv, n_ev = max(n_nv, rnd.choice([2, 2, 3])), max(n_ev, rnd.choice([1, 1, 2]))
+    if name_style == 'sandwich':
+        n_nv, n_ev = max(n_nv, 3), rnd.choice([0, n_ev, 3])
+    nv = [[n, rnd.choice(widths)] for n in rand_names(rnd, n_nv, NAMES_N, name_style)]
+    ev = [[n, rnd.choice(widths)] for n in rand_names(rnd, n_ev, NAMES_E + NAMES_N if name_style != 'shell' else NAMES_E[:4],
+                                                      name_style)]
     n_order, n_kind = order(rnd, nids)
     e_order, e_kind = order(rnd, eids)
     k = rnd.random()
@@ -208,6 +324,7 @@ def gen_case(rnd, keep_unref=False, steps=None):
     rnd.shuffle(steps)
     plain = rnd.random() < .5
     stem, dirname, rank = ('m', 'c02', 0) if plain else (rnd.choice(STEMS), rnd.choice(DIRS), rnd.choice(RANKS))
+    dir_style, res_stem, cnt, extras = gen_dir(rnd, stem, dir_style)
     sw_n = sum(w for _, w in nv)
     sw_e = sum(w for _, w in ev)
     data = {}
@@ -219,7 +336,9 @@ def gen_case(rnd, keep_unref=False, steps=None):
                       rnd.choice([1, 2, 3, 5, 5, 10])],
             'nodal_vars': nv, 'elem_vars': ev, 'nodal_order': n_order, 'elem_order': e_order,
             'order_kinds': [n_kind, e_kind], 'steps': steps, 'data': data, 'n_unref': m['n_unref'],
-            'stem': stem, 'dir': dirname, 'rank': rank}
+            'stem': stem, 'dir': dirname, 'rank': rank, 'res_stem': res_stem, 'cnt': cnt, 'extras': extras,
+            'name_style': name_style, 'dir_style': dir_style,
+            'explicit_stem': res_stem == stem and rnd.random() < .25}
 
 
 # ------------------------------------------------------------------ protocol
@@ -364,6 +483,10 @@ def write_files(ctx, case, texts):
     (d / msh_name(case)).write_text(msh_text(m))
     for s, text in texts.items():
         (d / res_name(case, s)).write_text(as_text(text))
+    if case.get('cnt'):
+        (d / case['cnt']).write_text(CNT_TEXT)
+    for x in case.get('extras', []):
+        (d / x).write_text(' log of the C02 harness\n 1 2 3\n')
     return d
 
 
@@ -379,7 +502,8 @@ def brief(case):
                      'n_elems': len(case['elem_order']), 'order': case['mesh'].get('order')},
             'layout': case['layout'], 'wraps': case['wraps'], 'nodal_vars': case['nodal_vars'],
             'elem_vars': case['elem_vars'], 'row_order': case['order_kinds'], 'steps': case['steps'],
-            'names': [case.get('dir', 'c02'), msh_name(case), res_name(case, '<step>')]}
+            'names': [case.get('dir', 'c02'), msh_name(case), res_name(case, '<step>')] + [x for x in [case.get('cnt')] if x]
+            + case.get('extras', [])}
 
 
 def oracle(case, d, report, check_mesh=True):
@@ -413,25 +537,29 @@ def oracle(case, d, report, check_mesh=True):
                            f'is not the value written for it', {'variable': n, 'ids': bad,
                                                                 'read': [got.get(i) for i in bad],
                                                                 'written': [tab[i] for i in bad]})
-    # latest step
-    fd, err = real(FEMData.read_directory, 'fistr', d, read_npy=False, save=False)
+    # latest step (default stem; for some directories whose files all carry one stem also with that stem given explicitly)
     latest = None
-    if err:
-        report(f'latest-read-raises:{lay}', f'read_directory raises {err}', {'error': err})
-    else:
-        latest = observe(fd, False)
+    for tag, kw in [('', {})] + ([(':explicit-stem', {'stem': case['stem']})] if case.get('explicit_stem') else []):
+        fd, err = real(FEMData.read_directory, 'fistr', d, read_npy=False, save=False, **kw)
+        if err:
+            report(f'latest-read-raises:{lay}{tag}', f'read_directory({kw}) raises {err}', {'error': err})
+            continue
+        got = observe(fd, False)
+        if not tag:
+            latest = got
         ref = singles[steps[-1]]
         if ref is not None:
             for key in ('nodal', 'elem'):
-                a = {n: by_id(t) for n, t in latest[key].items()}
+                a = {n: by_id(t) for n, t in got[key].items()}
                 b = {n: by_id(t) for n, t in ref[key].items()}
                 if a != b:
                     which = [s for s in steps if singles[s] and all(
-                        {n: by_id(t) for n, t in singles[s][k2].items()} == {n: by_id(t) for n, t in latest[k2].items()}
+                        {n: by_id(t) for n, t in singles[s][k2].items()} == {n: by_id(t) for n, t in got[k2].items()}
                         for k2 in ('nodal', 'elem'))]
-                    report('latest-step-wrong', f'read_directory without time series over steps {steps} does not '
-                           f'return step {steps[-1]}' + (f' but step {which[0]}' if which else ''),
-                           {'steps': steps, 'returned_step': which[:1]})
+                    report('latest-step-wrong' + tag, f'read_directory({kw}) without time series over steps {steps} in a '
+                           f'directory holding {sorted(p.name for p in d.iterdir())} does not return step {steps[-1]}'
+                           + (f' but step {which[0]}' if which else ' (variables read: ' f'{sorted(a)})'),
+                           {'steps': steps, 'returned_step': which[:1], 'variables_read': sorted(a)})
                     break
     # series
     fd, err = real(FEMData.read_directory, 'fistr', d, read_npy=False, save=False, time_series=True)
@@ -525,7 +653,20 @@ def run_case(ctx, case, cfg_mismatch, stream='main'):
     if not main:
         return
     # 3. model reader vs real reader
-    names = [Path(p).name for p in glob.glob(str(d / '*.res.*'))]
+    # the result files of the directory: the model's selection from the directory listing (`findRes`, the function of
+    # C02_res_glob_any_stem / C02_res_glob_listing), held to Python's glob on the same directory
+    listing = [e.name for e in os.scandir(d)]
+    t = C.Toks(ctx.driver.ask('c02.find ' + C.enc_list(listing, C.esc)))
+    assert t.tok() == 'ok'
+    names = t.lst(lambda: C.unesc(t.tok()))
+    globbed = [Path(p).name for p in glob.glob(str(d / '*.res.*'))]
+    want = [res_name(case, s) for s in case['steps']]
+    ctx.count('model findRes = glob(*.res.*) = the result files written: '
+              + ('yes' if sorted(names) == sorted(globbed) == sorted(want) else 'NO'))
+    if not sorted(names) == sorted(globbed) == sorted(want):
+        ctx.disagree('result files of the directory: model findRes != glob != files written', brief(case),
+                     {'glob': sorted(globbed), 'written': sorted(want)}, sorted(names))
+        names = globbed
     files = [(n, texts[int(n.rsplit('.', 1)[1])]) for n in names]
     lines = [readdir_line(case, 1, 0, [(res_name(case, s), texts[s])]) for s in steps]
     lines += [readdir_line(case, 1, 0, files), readdir_line(case, 1, 1, files), readdir_line(case, 0, 1, files)]
@@ -852,7 +993,9 @@ def run(ctx):
     for k in range(n_cases):
         # the first cases make sure the small classes (singleton step sets, 2 vs 10, steps straddling the digit-count
         # boundaries 999|1000, 9999|10000, 99999|100000) are present in every run
-        case = gen_case(ctx.rng, steps=FIRST_STEPS[k] if k < len(FIRST_STEPS) else None)
+        first = k < len(FIRST_STEPS)
+        case = gen_case(ctx.rng, steps=FIRST_STEPS[k] if first else None, name_style=FIRST_NAMES[k] if first else None,
+                        dir_style=FIRST_DIRS[k] if first else None)
         b = brief(case)
         wrapped = (sum(w for _, w in case['nodal_vars']) > case['wraps'][1]
                    or len(case['nodal_vars']) > case['wraps'][0])
@@ -870,6 +1013,26 @@ def run(ctx):
         ctx.count('file names: ' + ('m.res.0.<step> in c02/' if (case['stem'], case['dir'], case['rank']) == ('m', 'c02', 0)
                                     else 'stem / directory / rank with digits'))
         ctx.count(f"n_elem_vars:{len(case['elem_vars'])}")
+        ctx.count('variable names: ' + case['name_style'])
+        if case['explicit_stem']:
+            ctx.count('directory also read with stem= given explicitly')
+        ts = set(case['mesh']['blocks'])
+        if any(a in ts and a + '2' in ts for a in ('tet', 'hex', 'line')):
+            ctx.count('mesh: first- and second-order elements of one shape together')
+        n_n, n_e, n_s = len(case['nodal_order']), len(case['elem_order']), len(case['steps'])
+        if n_n == n_e or n_s in (n_n, n_e):
+            ctx.count('square shapes: ' + ('n_nodes == n_elems' if n_n == n_e else 'n_steps == n_nodes or n_elems'))
+        names = [n for n, _ in case['nodal_vars']], [n for n, _ in case['elem_vars']]
+        for sec, ns in zip(('nodal', 'elemental'), names):
+            if ns and not all(is_plain(n) for n in ns):
+                ctx.count(f'non-word names in the {sec} list: ' + ('all' if not any(is_plain(n) for n in ns) else 'first' if
+                          not is_plain(ns[0]) else 'last' if not is_plain(ns[-1]) else 'inner only'))
+        ctx.count('files with non-word names and elemental variables: ' + str(bool(
+            names[1] and not all(is_plain(n) for n in names[0] + names[1]))))
+        ctx.count('directory: result files named ' + ('after the mesh' if case['res_stem'] == case['stem'] else 'differently')
+                  + ', control file ' + ('none' if not case['cnt'] else 'named after the mesh' if case['cnt'] == case['stem'] + '.cnt'
+                                         else 'named after the results' if case['cnt'] == case['res_stem'] + '.cnt' else 'own name')
+                  + (', other solver files' if case['extras'] else ''))
         ctx.count('value-lines-wrapped:' + str(wrapped))
         run_case(ctx, case, cfg_mismatch)
     # size boundaries (class G): large-but-cheap files, one block of more than k x 2^16 lines whose lines per record do
